@@ -128,7 +128,14 @@ vh::Outcome run_c14(const vh::Case& c) {
             while (readers_inside < nreaders && ++guard < 600) vrt::yield_now();
             if (readers_inside < nreaders) vrt::fail("reader-blocked", std::string("a reader did not complete its read acquisition while a writer was suspended at step ") + std::to_string(k) + " of " + wname[wop]);
             vrt::thaw(writer);
-            int st = vrt::join_bounded(writer, 300);
+            // The readers release when the writer has executed a generated number r of its own visible steps since it was thawed
+            // (r in 0..199, enumerated by the enum-cfg stage): the release can land at every point of the writer's wait, including
+            // back-off paths (spin for a while, then park on a condition variable).
+            long r = c.cfg.size() > 6 ? c.cfg[6] % 200 : 60;
+            long base = vrt::rt().fibers[(size_t)writer]->own_steps;
+            long polls = 0;
+            while (!vrt::is_done(writer) && vrt::rt().fibers[(size_t)writer]->own_steps - base < r && ++polls < 4000) vrt::yield_now();
+            int st = vrt::is_done(writer) ? 0 : 2;
             if (st != 0) writer_waited = true;           // allowed: a writer may wait for held read handles
             release_readers = true;
         }
@@ -148,8 +155,8 @@ vh::Outcome run_c14(const vh::Case& c) {
 
 vh::GenSpec spec(bool th) {
     vh::GenSpec g; g.nfibers = 1; g.max_ops = 1; g.ncodes = 1; g.amax = 1; g.bmax = 1;
-    g.cfg_max = {W_NOPS, 48, 3, 2, 4, 2};
-    g.sched_len = th ? 96 : 64; g.aux_len = 8;
+    g.cfg_max = {W_NOPS, 48, 3, 2, 4, 2, 200};
+    g.sched_len = th ? 96 : 64; g.aux_len = 12; g.aux_density = 35;
     return g;
 }
 vh::Register r("C14", spec(false), spec(true), run_c14,
